@@ -119,6 +119,9 @@ func (g *termGen) term(d int) *gt {
 
 func (g *termGen) list(d int) *gt {
 	n := 1 + g.r.Intn(4)
+	if g.r.Intn(5) == 0 {
+		n = 4 + g.r.Intn(4)
+	}
 	elems := make([]*gt, n)
 	style := g.r.Intn(4)
 	for i := range elems {
@@ -186,7 +189,7 @@ func gtStripShare(t *gt) *gt {
 	return gApp(t.s, args...)
 }
 
-const c02Recipes = "bdscauftp"
+const c02Recipes = "bdscauftpw"
 
 func genC02Unify(r *rand.Rand, n int, tier string) []string {
 	var out []string
@@ -471,6 +474,24 @@ func (b *builder) build(t *gt) engine.Term {
 			l, z := engine.NewVariable(), engine.NewVariable()
 			if r, ok := b.ask(compound("findall", z, compound("=", z, bracket()), engine.List(l)), l); ok {
 				res = r
+			}
+		}
+	case 'w': // a front list COLLECTED by findall/3 (a Go slice with spare capacity), extended twice by
+		// append/3: the first result must stay what it was when the second one is made
+		if proper && ground(t) && len(elems) >= 4 {
+			k := 3
+			if len(elems) >= 6 {
+				k = 5
+			}
+			fr, z, l := engine.NewVariable(), engine.NewVariable(), engine.NewVariable()
+			*b.pre = append(*b.pre, compound("findall", z, compound("member", z, engine.List(elems[:k]...)), fr))
+			if r, ok := b.ask(compound("append", fr, engine.List(elems[k:]...), l), l); ok {
+				res = r
+				decoy := make([]engine.Term, len(elems)-k)
+				for j := range decoy {
+					decoy[j] = atom("decoy")
+				}
+				*b.pre = append(*b.pre, compound("append", fr, engine.List(decoy...), engine.NewVariable()))
 			}
 		}
 	case 't': // atom_chars/2
